@@ -181,15 +181,17 @@ def dictLoop (isZero : V → Bool) (items : List (String × Leaf V)) (m : Mesh) 
             | .error e => .error e
             | .ok a' => dictLoop isZero items m nv rest a'
 
-/-- initial array: the non-callable default, else the NaN sentinel everywhere -/
-def fillOf (dflt : Option (Dflt V)) (m : Mesh) (nv : Nat) : M (NDA (Option V)) :=
+/-- initial array: the non-callable default, else the NaN sentinel everywhere.
+`junk = none`: the dtype can hold NaN (float, complex).  `junk = some g`: it cannot (int, bool) and
+`np.full(…, np.nan, dtype)` stores the cast value `g`, which `np.isnan` never reports. -/
+def fillOf (junk : Option V) (dflt : Option (Dflt V)) (m : Mesh) (nv : Nat) : M (NDA (Option V)) :=
   match dflt with
   | some (.val a) =>
     match bcast (m.n ++ [nv]) a with
     | .error e => .error e
     | .ok b => .ok (b.map some)
   | some .bad => .error .value
-  | _ => .ok (NDA.const (m.n ++ [nv]) none)
+  | _ => .ok (NDA.const (m.n ++ [nv]) junk)
 
 /-- `subval(mesh.index2point(idx))` -/
 def dfltCell (d : Dflt V) (m : Mesh) (i : List Nat) : M (List V) :=
@@ -222,11 +224,11 @@ def nanCells (m : Mesh) (a : NDA (Option V)) : List (List Nat) :=
 def unwrap (a : NDA (Option V)) : NDA V := a.map fun o => o.getD default
 
 /-- `Field._as_array(val, mesh, nvdim, dtype)` -/
-def asArray (isZero : V → Bool) (s : Spec V) (m : Mesh) (nv : Nat) : M (NDA V) :=
+def asArray (isZero : V → Bool) (junk : Option V) (s : Spec V) (m : Mesh) (nv : Nat) : M (NDA V) :=
   match s with
   | .leaf l => asLeaf isZero l m nv
   | .dict items dflt =>
-    match fillOf dflt m nv with
+    match fillOf junk dflt m nv with
     | .error e => .error e
     | .ok a0 =>
       match dictLoop isZero items m nv m.subs.reverse a0 with
@@ -243,15 +245,15 @@ def asArray (isZero : V → Bool) (s : Spec V) (m : Mesh) (nv : Nat) : M (NDA V)
 
 /-- `Field.update_field_values(value)`: `self.array = self._as_array(value, …)`, and the
 `array` setter converts once more (`self._array = self._as_array(val, …)`) -/
-def updateValues (isZero : V → Bool) (s : Spec V) (m : Mesh) (nv : Nat) : M (NDA V) :=
-  match asArray isZero s m nv with
+def updateValues (isZero : V → Bool) (junk : Option V) (s : Spec V) (m : Mesh) (nv : Nat) : M (NDA V) :=
+  match asArray isZero junk s m nv with
   | .error e => .error e
   | .ok a => asLeaf isZero (.arr a) m nv
 
 /-- `Field(mesh, nvdim=…, value=…, vdims=…)` as far as the values are concerned -/
-def VF.mk? (isZero : V → Bool) (m : Mesh) (nv : Nat) (s : Spec V) (vdims : Option (List String)) :
-    M (VF V) :=
-  match updateValues isZero s m nv with
+def VF.mk? (isZero : V → Bool) (junk : Option V) (m : Mesh) (nv : Nat) (s : Spec V)
+    (vdims : Option (List String)) : M (VF V) :=
+  match updateValues isZero junk s m nv with
   | .error e => .error e
   | .ok a => .ok ⟨m, nv, a, vdims⟩
 
@@ -262,8 +264,8 @@ def VF.setArray (isZero : V → Bool) (f : VF V) (l : Leaf V) : M (VF V) :=
   | .ok a => .ok { f with data := a }
 
 /-- `field.update_field_values(val)` on an existing field -/
-def VF.update (isZero : V → Bool) (f : VF V) (s : Spec V) : M (VF V) :=
-  match updateValues isZero s f.mesh f.nvdim with
+def VF.update (isZero : V → Bool) (junk : Option V) (f : VF V) (s : Spec V) : M (VF V) :=
+  match updateValues isZero junk s f.mesh f.nvdim with
   | .error e => .error e
   | .ok a => .ok { f with data := a }
 
@@ -283,7 +285,7 @@ def VF.comp (isZero : V → Bool) (f : VF V) (label : String) : M (VF V) :=
     match indexOf? vs label with
     | none => .error .value
     | some k =>
-      VF.mk? isZero f.mesh 1
+      VF.mk? isZero none f.mesh 1
         (.leaf (.arr ⟨f.mesh.n ++ [1], fun j => f.data.get (j.dropLast ++ [k])⟩)) none
 
 /-- `Field.__iter__`: `for point in self.mesh: yield self(point)` -/
@@ -324,13 +326,17 @@ structure LineOut (V : Type) where
   /-- squared distance of every point from the first one -/
   r2 : List Rat
 
-/-- `Field.line(p1, p2, n)` + `Line.__init__` -/
+/-- `Field.line(p1, p2, n)` + `Line.__init__`.  On a 1-d mesh `Mesh.line` yields bare numbers
+(`array2tuple` unwraps arrays of size 1), the point table is 1-d and `points[0, :]` in
+`Line.__init__` raises `IndexError` (finding D23). -/
 def VF.line (f : VF V) (p1 p2 : List Rat) (n : Nat) : M (LineOut V) :=
   match meshLine f.mesh p1 p2 n with
   | .error e => .error e
   | .ok pts =>
     match seqM (pts.map f.call) with
     | .error e => .error e
-    | .ok vals => .ok ⟨pts, vals, pts.map fun p => sqDist p (pts.getD 0 [])⟩
+    | .ok vals =>
+      if f.mesh.ndim = 1 then .error .index
+      else .ok ⟨pts, vals, pts.map fun p => sqDist p (pts.getD 0 [])⟩
 
 end DFV.C02
